@@ -209,10 +209,19 @@ PLANS["C06"] = {
 def c20_jobs(tier, seed, bin_dir, replay):
     if replay:
         return [eggmon(bin_dir, "exec", "replay", seed, tier, extra={"file": replay})]
-    n = 200 if tier == "quick" else 2000
+    n = 1500 if tier == "quick" else 20000
     jobs = []
-    for mode in (["plain"] if tier == "quick" else ["plain", "term", "proofs"]):
-        base = {"profile": "any", "mode": mode}
+    T = "/repo/tests/"
+    qfiles = [T + "factoring-multisets.egg", T + "taylor51.egg", T + "web-demo/eqsolve.egg", T + "web-demo/towers-of-hanoi.egg"]
+    tfiles = qfiles + [T + "python_array_optimize.egg", T + "math-microbenchmark.egg"]
+    for mode in ["plain", "term", "proofs"]:
+        files = [f for f in (qfiles if tier == "quick" else tfiles) if os.path.exists(f)]
+        if mode != "plain":
+            # the encodings are ~10x slower and reject part of the grammar: fewer programs, no big files
+            files = [f for f in files if "web-demo" in f]
+        base = {"profile": "any" if mode == "plain" else "enc", "mode": mode, "files": ",".join(files)}
+        if mode != "plain":
+            n = 150 if tier == "quick" else 2500
         pre = "" if mode == "plain" else mode + "-"
         jobs.append(eggmon(bin_dir, "battery", f"ref-{mode}", seed, tier, n=n, extra=dict(base, texts=1)))
         variants = [
